@@ -84,6 +84,7 @@ package internals
 //@ spec clean(c) = !c.CanCatch && !c.Exit
 // Footprint of recording an issue in the execution x: the ghost log, the container's representation and the
 // message of issues (set by formatters).
+//@ spec recregions() = locs(anyelems(Ptr), mapsof(ZogIssueMap), anyfield(ZogIssue, Message))
 //@ spec recfp(x) = locs(L(x.Errors), when(istype(x.Errors, *ErrsList), x.Errors.(*ErrsList).List), when(istype(x.Errors, *ErrsMap), x.Errors.(*ErrsMap).M), anyelems(Ptr), mapsof(ZogIssueMap), anyfield(ZogIssue, Message))
 
 // Abstract rendered path of a PathBuilder (ghost sequence; see PathBuilder contracts).
